@@ -41,7 +41,11 @@ var (
 	bvSorts  = map[int]*Sort{}
 )
 
+var bvMu sync.Mutex
+
 func sortBV(w int) *Sort {
+	bvMu.Lock()
+	defer bvMu.Unlock()
 	if s, ok := bvSorts[w]; ok {
 		return s
 	}
